@@ -52,6 +52,9 @@ package phyloxml
 //@ func io/phyloxml.cladeToTree
 //@   flag noframe
 //@   flag lightcalls
+//@   flag countcalls
+//@   ensures [a_present_length_and_the_confidence_of_an_inner_clade_are_always_taken_each_independently] ghost(ncalls_SetLength) == old(ghost(ncalls_SetLength)) + ((parent != nil && old(c.BranchLength) != nil) ? 1 : 0) && ghost(ncalls_SetSupport) == old(ghost(ncalls_SetSupport)) + ((parent != nil && old(len(c.Clades)) > 0 && old(c.Confidence) != nil) ? 1 : 0)
+//@   ensures [every_clade_gets_a_node_of_its_own_with_the_next_identifier] ghost(ncalls_NewNode) == old(ghost(ncalls_NewNode)) + 1 && ghost(ncalls_ConnectNodes) == old(ghost(ncalls_ConnectNodes)) + (parent != nil ? 1 : 0)
 //@   requires c != nil && t != nil && nedges != nil && nnodes != nil
 //@   call (*tree.Tree).ConnectNodes [the_clade_node_hangs_under_the_node_of_the_enclosing_clade] a0 == t && a1 == parent && a2 == newNode && parent != nil && fresh(newNode)
 //@   call (*tree.Edge).SetLength [branch_takes_the_clade_length_when_present] c.BranchLength != nil && a1 == *c.BranchLength && a0 == e
